@@ -440,6 +440,30 @@ impl AMod {
         }
         self.memories.get((m - k) as usize).cloned()
     }
+    pub fn table_ty(&self, t: u32) -> Option<TableTy> {
+        let mut k = 0;
+        for i in &self.imports {
+            if let ImportDesc::Table(ty) = &i.desc {
+                if k == t {
+                    return Some(ty.clone());
+                }
+                k += 1;
+            }
+        }
+        self.tables.get((t - k) as usize).map(|x| x.0.clone())
+    }
+    pub fn global_ty(&self, g: u32) -> Option<GlobalTy> {
+        let mut k = 0;
+        for i in &self.imports {
+            if let ImportDesc::Global(ty) = &i.desc {
+                if k == g {
+                    return Some(ty.clone());
+                }
+                k += 1;
+            }
+        }
+        self.globals.get((g - k) as usize).map(|x| x.0.clone())
+    }
     pub fn names(&self) -> Option<Result<ANames>> {
         let c = self.customs.iter().find(|c| c.name == "name")?;
         Some(decode_names(&c.data, c.data_offset))
